@@ -166,7 +166,14 @@ func (e *lifeEnv) keyJSON(k CEnt) map[string]interface{} {
 	}
 }
 
-func lifeSvcURI(s CEnt) string { return fmt.Sprintf("https://svc%d.example/v%d", s.ID, s.Ver) }
+// (even versions: a query with characters that HTML-minded JSON writers escape)
+func lifeSvcURI(s CEnt) string {
+	if s.Ver%2 == 0 {
+		return fmt.Sprintf("https://svc%d.example/v%d?a=1&b=<2>", s.ID, s.Ver)
+	}
+
+	return fmt.Sprintf("https://svc%d.example/v%d", s.ID, s.Ver)
+}
 
 func (e *lifeEnv) svcJSON(s CEnt) map[string]interface{} {
 	return map[string]interface{}{"id": fmt.Sprintf("s%d", s.ID), "type": fmt.Sprintf("SvcType%d", s.Ver), "serviceEndpoint": lifeSvcURI(s)}
@@ -247,7 +254,19 @@ func (e *lifeEnv) projectDoc(doc document.Document) (CDoc, []string) {
 					ent.ID = atoi(id[1:])
 
 					for v := 1; v <= 3; v++ {
-						if same(m, e.svcJSON(CEnt{ent.ID, v})) {
+						want := e.svcJSON(CEnt{ent.ID, v})
+
+						// (through the Sidetree client the caller's services carry one further property)
+						withProps := map[string]interface{}{}
+						for name, val := range want {
+							withProps[name] = val
+						}
+
+						for name, val := range map[string]interface{}{"custom": "v"} {
+							withProps[name] = val
+						}
+
+						if same(m, want) || same(m, withProps) {
 							ent.Ver = v
 						}
 					}
@@ -419,9 +438,11 @@ func (e *lifeEnv) sdocKey(k CEnt) *sdoc.PublicKey {
 		JWK: jwk.JWK{JSONWebKey: gojose.JSONWebKey{Key: e.docKey(k).Pub}}}
 }
 
-func (e *lifeEnv) sdocSvc(s CEnt) *docdid.Service {
+// further properties of the caller's services: ONE map that all services of a call refer to (the caller's map is the
+// caller's: see the digest taken in build)
+func (e *lifeEnv) sdocSvc(s CEnt, props map[string]interface{}) *docdid.Service {
 	return &docdid.Service{ID: fmt.Sprintf("s%d", s.ID), Type: fmt.Sprintf("SvcType%d", s.Ver),
-		ServiceEndpoint: endpoint.NewDIDCommV1Endpoint(lifeSvcURI(s))}
+		ServiceEndpoint: endpoint.NewDIDCommV1Endpoint(lifeSvcURI(s)), Properties: props}
 }
 
 func aoString(ao int) string {
@@ -433,7 +454,7 @@ func aoString(ao int) string {
 }
 
 // build returns the request bytes the two entry levels produce for a step.
-func (e *lifeEnv) build(st *lStep, t int, did string, pre *lifeState) []built {
+func (e *lifeEnv) build(st *lStep, t int, did string, pre *lifeState, svcProps map[string]interface{}) []built {
 	alg := uint(e.algOf(st.Alg)) // the algorithm the caller asks for in this step
 
 	// the algorithm of the commitment this step's signing key was committed with
@@ -507,7 +528,7 @@ func (e *lifeEnv) build(st *lStep, t int, did string, pre *lifeState) []built {
 		}
 
 		for _, s := range st.Req.Doc.Svcs {
-			opts = append(opts, create.WithService(e.sdocSvc(s)))
+			opts = append(opts, create.WithService(e.sdocSvc(s, svcProps)))
 		}
 
 		for _, u := range st.Req.Doc.Aka {
@@ -557,7 +578,7 @@ func (e *lifeEnv) build(st *lStep, t int, did string, pre *lifeState) []built {
 			}
 
 			for _, s := range u.AddSvcs {
-				opts = append(opts, update.WithAddService(e.sdocSvc(s)))
+				opts = append(opts, update.WithAddService(e.sdocSvc(s, svcProps)))
 			}
 
 			for _, i := range u.RemSvcs {
@@ -615,7 +636,7 @@ func (e *lifeEnv) build(st *lStep, t int, did string, pre *lifeState) []built {
 			}
 
 			for _, s := range st.Req.Doc.Svcs {
-				opts = append(opts, recovery.WithService(e.sdocSvc(s)))
+				opts = append(opts, recovery.WithService(e.sdocSvc(s, svcProps)))
 			}
 
 			for _, u := range st.Req.Doc.Aka {
@@ -742,7 +763,14 @@ func (e *lifeEnv) step(pre *lifeState, st *lStep, t int, want *lPost) lifeOutcom
 			}
 		}()
 
-		builts = e.build(st, t, did, pre)
+		svcProps := map[string]interface{}{"custom": "v"}
+		propsBefore := digestJSON(svcProps)
+
+		builts = e.build(st, t, did, pre, svcProps)
+
+		if after := digestJSON(svcProps); after != propsBefore {
+			fail("input-mutated", "sidetree_client", "the Properties map of the caller's services was written to", propsBefore, generic(svcProps), nil)
+		}
 	}()
 
 	advanced := false
